@@ -169,6 +169,9 @@ class H:
     def __init__(self, env, params, *, sym_ctx: symx.Ctx | None = None, witness: dict | None = None):
         self.env = env
         self.p = params
+        # absolute native tolerance; a cell that compares small quantities in base units (mol, L) and states its rounding
+        # slack explicitly can ask for a finer one
+        self.fabs = float(params.get('fabs', FABS)) if isinstance(params, dict) else FABS
         self.sym = sym_ctx
         self.mode = 'sym' if sym_ctx is not None else 'native'
         self.witness = witness or {}
@@ -217,7 +220,7 @@ class H:
         a = float(a)
         b = float(b)
         d = a - b - float(slack)
-        tol = FABS + FREL * max(abs(a), abs(b))
+        tol = self.fabs + FREL * max(abs(a), abs(b))
         if op == '<=' or op == '<':
             return Cond(None, d <= tol, d <= -tol, text)
         if op == '>=' or op == '>':
